@@ -162,16 +162,15 @@ def local_defined(F, S, fn, var, rec, use_nid):
             x = pm[x]
         use_nid = x
     ub, ui = eb.get(use_nid, (None, None))
-    defined = set()
-
-    def dominates(nid):
-        if nid not in eb or ub is None:
-            return False
-        b, i = eb[nid]
-        return (b == ub and i < ui) or (b != ub and b in dom.get(ub, set()))
+    gens = {}               # defining node -> leaf paths it assigns
+    always = set()          # what the declaration itself defines
 
     def cover(p):
         return {x for x in allv if x[:len(p)] == p}
+
+    def gen(nid, paths):
+        if nid in eb:
+            gens.setdefault(nid, set()).update(paths)
     for nd in fn.nodes:
         k = nd["k"]
         if k == "DeclStmt":
@@ -182,25 +181,25 @@ def local_defined(F, S, fn, var, rec, use_nid):
                     continue
                 ini = fn.n(fn.strip(d["init"], casts=False))
                 if ini["k"] in CTORS and ini.get("default_ctor") and not ini.get("zero_init") and not ini.get("list_init"):
-                    defined |= ctor_defined(F, rec)
+                    always |= ctor_defined(F, rec)
                 elif ini["k"] in CTORS and not ini.get("copy_or_move") and ini.get("callee_in_repo") and not ini.get("ctor_implicit"):
                     cal = [x for x in F.callees(ini) if x.d.get("ctor")]
-                    defined |= ctor_cover(F, cal[0]) if cal else ctor_defined(F, rec)
+                    always |= ctor_cover(F, cal[0]) if cal else ctor_defined(F, rec)
                 else:
-                    defined |= allv          # aggregate / value initialisation / copy of another object / call result
-        elif k in ("BinaryOperator",) and nd.get("op") == "=" and dominates(nd["id"]):
+                    always |= allv          # aggregate / value initialisation / copy of another object / call result
+        elif k in ("BinaryOperator",) and nd.get("op") == "=":
             p = member_path(fn.term(fn.kids(nd["id"])[0]), var)
             if p is not None:
-                defined |= cover(p)
-        elif k == "CXXOperatorCallExpr" and nd.get("op") == "=" and nd.get("args") and dominates(nd["id"]):
+                gen(nd["id"], cover(p))
+        elif k == "CXXOperatorCallExpr" and nd.get("op") == "=" and nd.get("args"):
             p = member_path(fn.term(nd["args"][0]), var)
             if p is not None:
-                defined |= cover(p)
-        elif k == "CXXMemberCallExpr" and nd.get("fname") in ("Read", "Peek") and nd.get("args") and dominates(nd["id"]):
+                gen(nd["id"], cover(p))
+        elif k == "CXXMemberCallExpr" and nd.get("fname") in ("Read", "Peek") and nd.get("args"):
             p = member_path(fn.term(nd["args"][0]), var)
             if p is not None:
-                defined |= cover(p)
-        elif k in CALLS and dominates(nd["id"]):
+                gen(nd["id"], cover(p))
+        elif k in CALLS:
             # passed by non-const reference to a repo function that writes it
             for cal in F.callees(nd):
                 w = {it[1] for it in S.writes(cal) if it[0] in ("param",)}
@@ -209,7 +208,44 @@ def local_defined(F, S, fn, var, rec, use_nid):
                     if i < len(args):
                         p = member_path(fn.term(args[i]), var)
                         if p is not None:
-                            defined |= cover(p)
+                            gen(nd["id"], cover(p))
+    if ub is None:
+        return set(always)
+    # forward must-analysis: a leaf is definitely assigned at a point if it is on every path reaching it (an assignment
+    # on each arm of a branch counts, an assignment on one arm only does not)
+    OUT = {}
+    IN = {g.entry: set()}
+
+    def flow(b, upto=None):
+        cur = set(IN[b])
+        for i, e in enumerate(g.blocks[b]["elems"]):
+            if upto is not None and i >= upto:
+                break
+            if isinstance(e, int) and e in gens:
+                cur |= gens[e]
+        return cur
+    changed = True
+    rounds = 0
+    while changed and rounds < 50:
+        changed = False
+        rounds += 1
+        for b in g.order:
+            if b != g.entry:
+                ps = [OUT[p] for p in g.pred[b] if p in OUT and p not in g.throws]
+                if not ps:
+                    continue
+                new_in = set.intersection(*[set(x) for x in ps])
+                if IN.get(b) != new_in:
+                    IN[b] = new_in
+                    changed = True
+            if b in IN:
+                o = flow(b)
+                if OUT.get(b) != o:
+                    OUT[b] = o
+                    changed = True
+    defined = set(always)
+    if ub in IN:
+        defined |= flow(ub, ui)
     return defined
 
 
